@@ -30,3 +30,17 @@ if which in('all','seeded'):
         m=json.load(open(d))
         det='; '.join('%s: %s'%(k,v) for k,v in m['detected_by'].items())
         print('| %s | %s | %s | %s | %s |'%(m['id'],m['property'],cell(m['summary']),cell(m['needs_to_manifest']),cell(det)))
+
+if which in('all','strengthened'):
+    print()
+    for d in sorted(glob.glob(os.path.join(root,'seeded','*','meta.json'))):
+        m=json.load(open(d))
+        for k,v in m['detected_by'].items():
+            if 'first run missed' in v:
+                print('* **%s** (%s, via seeded change %s — %s): %s'%(k,m['property'],m['id'],cell(m['summary']),cell(v.replace('quick: ',''))))
+    print()
+    for d in sorted(glob.glob(os.path.join(root,'seeded','*','meta.json'))):
+        m=json.load(open(d))
+        nd=[k for k,v in m['detected_by'].items() if 'not detected' in v or 'INCONCLUSIVE' in v]
+        if nd:
+            print('* %s is not reported by %s: %s'%(m['id'],', '.join(nd),'; '.join(cell(m['detected_by'][k]) for k in nd)))
